@@ -108,6 +108,17 @@ type (
 		//
 		// Closes the transport.
 		DoClose(types.Callable)
+		// Starts reading the connection, for a transport that reads it on a
+		// goroutine of its own (websocket, webtransport); nothing for the others.
+		// A transport built by Make*+Construct or by a TransportCtor does not
+		// read before this call, so that whoever consumes it attaches its
+		// listeners first: a frame read before that is emitted to no listener
+		// and lost. The engine calls it at the end of Handshake and of
+		// MaybeUpgrade; a 'connection' listener that needs the client's next
+		// frame before it returns calls it itself (socket.Transport().Start()),
+		// and so does code that builds a session with NewSocket. Later calls do
+		// nothing.
+		Start()
 	}
 
 	Polling interface {
